@@ -546,6 +546,8 @@ def tree_overlaps(tree, obj, eps=EPS):
     kind = tree[0]
     if kind == "vol":
         return overlap(obj, tree[1], eps)[0]
+    if kind == "flat":
+        return flat_overlaps(obj, tree[1], tree[2], tree[3], eps)
     if kind == "foot":
         proj = [O.project_xy() for O in obj]
         # inside the planar set minus holes somewhere: overlap with a piece at a place not covered by holes.
@@ -556,6 +558,41 @@ def tree_overlaps(tree, obj, eps=EPS):
         if ov is True and not tree[2]:
             return True
         return None
+    return None
+
+
+def flat_overlaps(obj, outers, holes, z0, eps=EPS):
+    """Does the solid (3D pieces) meet the flat region {(x, y, z0) : (x, y) in union(outers) minus holes}?
+    True: a disc of radius > eps of the plane z = z0 lies in a piece of the solid and in an outer piece, clear of
+    every hole.  False: every (solid piece, outer piece lifted to z0) pair is farther apart than eps."""
+    all_apart = True
+    for O in obj:
+        a2 = O.A[:, :2]
+        n2 = np.linalg.norm(a2, axis=1)
+        rhs = O.b - O.A[:, 2] * z0
+        for P in outers:
+            lifted = np.hstack([P.V, np.full((len(P.V), 1), z0)])
+            lo, hi = gjk_bracket(O.V, lifted)
+            if lo > eps:
+                continue
+            all_apart = False
+            # Chebyshev disc in the slice
+            keep = n2 > 1e-12
+            if np.any(~keep & (rhs < 0)):
+                continue  # a horizontal facet excludes the plane
+            A = np.vstack([np.hstack([a2[keep], n2[keep, None]]), np.hstack([P.A, np.ones((len(P.b), 1))])])
+            b = np.concatenate([rhs[keep], P.b])
+            STATS["lp"] += 1
+            res = linprog([0, 0, -1.0], A_ub=A, b_ub=b, bounds=[(-1e6, 1e6)] * 3, method="highs")
+            if res.status != 0:
+                continue
+            r = float(res.x[2])
+            c = res.x[:2]
+            if r > eps and all(-H.contains_point_margin(c) >= eps for H in holes):
+                # the centre is outside every hole by eps: a disc of radius min(r, eps) around it is in the region
+                return True
+    if all_apart:
+        return False
     return None
 
 
